@@ -19,7 +19,7 @@ HEED_DB_OPS = {
     'stat': (False, None),
 }
 WHOLE_DB_OPS = {'clear', 'iter', 'iter_mut', 'rev_iter', 'rev_iter_mut', 'len', 'is_empty', 'first', 'last',
-                'range', 'range_mut', 'rev_range', 'rev_range_mut', 'get_lower_than', 'get_lower_than_or_equal_to',
+                'get_lower_than', 'get_lower_than_or_equal_to',
                 'get_greater_than', 'get_greater_than_or_equal_to', 'stat'}
 TYPE_ONLY = {'remap_data_type', 'remap_key_type', 'remap_types', 'lazily_decode_data'}
 CURSOR_OPS = {'del_current': True, 'put_current': True, 'put_current_with_options': True,
@@ -312,4 +312,19 @@ def cursor_root_call(fn, t):
     for s in walk(t):
         if s[0] == 'call' and ('prefix_iter' in s[1]):
             return s
+    return None
+
+
+def full_kind_range(t):
+    """(kind, index_term) when `t` is the inclusive range Key::k(idx, 0) ..= Key::k(idx, u32::MAX) of one index and kind"""
+    ctors = [x for x in walk(t) if x[0] == 'call' and x[1] in KEY_CTORS]
+    incl = any((x[0] == 'call' or x[0] == 'agg') and 'RangeInclusive' in x[1] for x in walk(t))
+    if len(ctors) != 2 or not incl:
+        return None
+    a, b = ctors
+    if a[1] != b[1] or len(a[2]) < 2 or len(b[2]) < 2 or not same(a[2][0], b[2][0]):
+        return None
+    lo, hi = strip(a[2][1]), strip(b[2][1])
+    if lo[0] == 'const' and lo[2] == 0 and hi[0] == 'const' and hi[2] == 0xFFFFFFFF:
+        return (KEY_CTORS[a[1]], a[2][0])
     return None
